@@ -369,11 +369,23 @@ def step (st : State) (chk : Bool) (line : String) : State × Bool × List Strin
     | some e => let (st', out) := finishEnum st e; (st', chk, out)
     | none => (st, chk, ["bad-line " ++ line])
   | "decl" :: name :: rest =>
-    let d : DeclSyn := {
-      name := name, baseIdent := (kv "base" rest).getD "?",
-      default := (kv "default" rest).bind parseDefault, debug := (kv "debug" rest).getD "0" == "1",
-      isStruct := (kv "struct" rest).getD "1" == "1", fields := [] }
-    ({ st with curDecl := some d }, chk, [])
+    -- `decl NAME struct=1 consts=C_A:5,C_B:7 :: <argument list of #[bitfield(…)] as written>`
+    let argText := match line.splitOn " :: " with
+      | _ :: parts => " :: ".intercalate parts
+      | [] => ""
+    let consts : List (String × Nat) := ((kv "consts" rest).getD "").splitOn "," |>.filterMap fun e =>
+      match e.splitOn ":" with
+      | [n, v] => v.toNat?.map (fun x => (n, x))
+      | _ => none
+    let constVal (n : String) : Option Nat := (consts.find? (·.1 == n)).map (·.2)
+    let isStruct := (kv "struct" rest).getD "1" == "1"
+    match parseBitfieldArgs constVal (lexDeclArgs argText) with
+    | .ok (b, dflt, dbg) =>
+      let d : DeclSyn := { name := name, baseIdent := b, default := dflt, debug := dbg, isStruct := isStruct, fields := [] }
+      ({ st with curDecl := some d, curArgsErr := none }, chk, [])
+    | .error e =>
+      let d : DeclSyn := { name := name, baseIdent := "?", isStruct := isStruct, fields := [] }
+      ({ st with curDecl := some d, curArgsErr := some e }, chk, [])
   | "field" :: _ =>
     match st.curDecl, parseFieldLine line with
     | some d, some f => ({ st with curDecl := some { d with fields := d.fields ++ [f] } }, chk, [])
@@ -381,7 +393,10 @@ def step (st : State) (chk : Bool) (line : String) : State × Bool × List Strin
   | "fspec" :: _ => (st, chk, [])
   | ["enddecl"] =>
     match st.curDecl with
-    | some d => let (st', out) := finishDecl st d; (st', chk, out)
+    | some d =>
+      match st.curArgsErr with
+      | some e => ({ st.push (.rejected d.name) with curDecl := none, curArgsErr := none }, chk, [s!"verdict {d.name} {showReject e}"])
+      | none => let (st', out) := finishDecl st d; (st', chk, out)
     | none => (st, chk, ["bad-line " ++ line])
   | "op" :: name :: rest =>
     -- split at " = "
